@@ -177,6 +177,12 @@ def run(ctx):
         v = s.value
         ok = False
         why = ''
+        en = pn          # node at which the returned expression is evaluated
+        if isinstance(v, ast.Name):
+            from ..dataflow import resolve
+            rv_, rn_ = resolve(ard, pn, v)
+            if isinstance(rv_, ast.Tuple) or (isinstance(rv_, ast.Call) and call_name(rv_) == 'tuple'):
+                v, en = rv_, rn_
         if isinstance(v, ast.Name):
             vals = ard.values(pn, v.id)
             if len(vals) == 1 and isinstance(vals[0], ast.Call) and isinstance(vals[0].func, ast.Attribute) and vals[0].func.attr == 'authenticate':
@@ -204,9 +210,9 @@ def run(ctx):
             elif isinstance(v, ast.Call) and call_name(v) == 'tuple' and len(v.args) == 1 and isinstance(v.args[0], (ast.List, ast.Tuple)):
                 elts = v.args[0].elts
             if elts and len(elts) == 2 and isinstance(elts[0], ast.Name) and isinstance(elts[1], ast.Constant) and elts[1].value is None:
-                d = single_def_call(ard, pn, elts[0].id, 'auth.get_client_identity_from_certificate')
+                d = single_def_call(ard, en, elts[0].id, 'auth.get_client_identity_from_certificate')
                 if d is not None and len(d.args) == 1 and isinstance(d.args[0], ast.Name) and d.args[0].id == acert:
-                    defnode = ard.reaching(pn, elts[0].id)[0][2]
+                    defnode = ard.reaching(en, elts[0].id)[0][2]
                     no_exc = not any(l == 'exc' and pn.id in ag.reachable(m, [defnode]) for m, l in defnode.succ)
                     # under `not plugin_enabled`
                     flag_ok = False
